@@ -257,4 +257,17 @@ theorem collFootprint_ok : ∀ c ∈ collPrograms, (methodOf c.name).map Method.
 /-- `Update`/`Apply` run on clones (`CloneList`, `Clone`, `Extract`), never on a stored document -/
 theorem collApply_fresh : ∀ c ∈ collPrograms, applyFresh c = true := by decide +kernel
 
+/-! ## The Clone functions whose meaning the IR's `cloneCatalog` / `cloneColl` state
+
+  `cloneCatalog`: a NEW map with the SAME collection pointers.  `cloneColl`: a new struct, `Documents.Clone()`
+  = a new List slice and a new Index map holding the same document pointers, every index cloned
+  (`btree.Copy()`: copy-on-write isolation is tidwall/btree's contract — trusted), a new Indexes map.
+  The bodies are compared as text (whitespace-normalised, comments dropped): any edit asks for a review. -/
+def cloneBodies : List (String × String) := [
+  ("lungo.Catalog.Clone", "{ clone := &Catalog{ Namespaces: make(map[Handle]*mongokit.Collection, len(d.Namespaces)), } for name, namespace := range d.Namespaces { clone.Namespaces[name] = namespace } return clone }"),
+  ("mongokit.Collection.Clone", "{ clone := &Collection{ Documents: c.Documents.Clone(), Indexes: map[string]*Index{}, } for name, index := range c.Indexes { clone.Indexes[name] = index.Clone() } return clone }"),
+  ("mongokit.Index.Clone", "{ return &Index{ config: i.config, columns: i.columns, base: i.base.Clone(), } }"),
+  ("bsonkit.Set.Clone", "{ clone := &Set{ List: make(List, len(s.List)), Index: make(map[Doc]int, len(s.Index)), } copy(clone.List, s.List) for doc, index := range s.Index { clone.Index[doc] = index } return clone }"),
+  ("bsonkit.Index.Clone", "{ clone := &Index{ btree: i.btree.Copy(), columns: i.columns, unique: i.unique, } return clone }")]
+
 end Lungo.Expected
